@@ -134,6 +134,27 @@ func hostileAtom(r *prng.Rand) ([]byte, string) {
 			fields[r.Intn(6)] = pickMagnitude(r)
 		}
 		n := []int{1, 2, 3, 5, 6, 6, 6}[r.Intn(7)]
+		if r.Chance(1, 3) {
+			// an otherwise ordinary timestamp to the fraction of a second whose offset lies far outside a day
+			off = varIntBytes([]uint64{1439, 1440, 1441, 5999, 6000, 6001, 16384, 100000, 1 << 31}[r.Intn(9)], r.Bool())
+			p := append([]byte(nil), off...)
+			for i := 0; i < 6; i++ {
+				p = append(p, varUIntBytes(fields[i], false)...)
+			}
+			digits := r.Range(1, 9)
+			coef := uint64(1)
+			for k := 0; k < digits; k++ {
+				coef = coef*10 + uint64(1+r.Intn(9))
+			}
+			lim := uint64(1)
+			for k := 0; k < digits; k++ {
+				lim *= 10
+			}
+			coef %= lim
+			p = append(p, varIntBytes(uint64(digits), true)...)
+			p = append(p, intField(coef, false)...)
+			return tlv(6, p), "timestamp-far-offset"
+		}
 		p := append([]byte(nil), off...)
 		for i := 0; i < n; i++ {
 			p = append(p, varUIntBytes(fields[i], false)...)
